@@ -373,9 +373,11 @@ Definition render_marked (m : mark) (s : socket) (id : list N) : list N :=
 
 Definition parse_marked (l : list N) : option (mark * socket * list N) :=
   match l with
-  | 126 :: r => option_map (fun p => (MUnwrap, fst p, snd p)) (parse_ident r)
-  | 38 :: r => option_map (fun p => (MGname, fst p, snd p)) (parse_ident r)
-  | r => option_map (fun p => (MName, fst p, snd p)) (parse_ident r)
+  | c :: r =>
+      if c =? 126 then option_map (fun p => (MUnwrap, fst p, snd p)) (parse_ident r)
+      else if c =? 38 then option_map (fun p => (MGname, fst p, snd p)) (parse_ident r)
+      else option_map (fun p => (MName, fst p, snd p)) (parse_ident l)
+  | [] => None
   end.
 
 (* the part of an arrow member key after the key: blanks, optional "^", blanks, "=>" *)
